@@ -168,7 +168,9 @@ def encode(kind, d, task):
         return RT.mock_values[task.slugname]
     if kind == 'list_numpy':
         b = bytes.fromhex(d)
-        return [np.array(list(b[:4]), dtype='uint8'), np.array(list(b[4:]), dtype='uint8')]
+        # twelve arrays (element files 0.npy .. 11.npy: more than ten, so their ORDER on disk is not the order of their
+        # names as text): four empty ones, then one byte each
+        return [np.array([], dtype='uint8') for _ in range(4)] + [np.array([x], dtype='uint8') for x in b]
     if kind == 'dir':
         data = task.get_data_object()
         # rows are appended as they are produced: the run relies on starting from an EMPTY work directory (anything a
